@@ -594,12 +594,3 @@ Definition wf_participant (r : participant) : Prop :=
 Definition participant_into_bytes (r : participant) : bytes := tbl_into_bytes participant_wtable r.
 Definition participant_from_bytes (d : bytes) : res participant :=
   tbl_from_bytes participant_rtable participant_build d.
-
-(* the one input family on which a discovery decoder panics (finding D14 of property C07): the
-   participant's PID_DOMAIN_TAG value starts with a zero string length, and
-   String::cdr_deserialize computes `length as usize - 1` (rtps_data_representation.rs:284) *)
-Definition domain_tag_len0 (d : bytes) : bool :=
-  match seek_to_pid d PID_DOMAIN_TAG, hdr_endianness (pl_hdr d) with
-  | Ok (Some v), Ok be => match r_u32 E_NED be (0, v) with Ok (len, _) => len =? 0 | _ => false end
-  | _, _ => false
-  end.
